@@ -716,6 +716,37 @@ pub fn check_output(model: &Model, bytes: &[u8]) -> Result<Vec<Mismatch>, String
                         format!("func {:#x} instr {instr}: probe magic {:#x} of an instruction inside a replaced construct is in the encoded function", l.magic, magic),
                     ));
                 }
+                // a special-mode probe ON the opener (or `else`) of a replaced construct: whether it is
+                // emitted is not stated; if it is, then next to the replacement and nowhere else (a copy
+                // anywhere else fires in a construct it was never attached to)
+                let on_opener = !inside
+                    && matches!(mode, Mode::BlockEntry | Mode::BlockExit | Mode::SemanticAfter)
+                    && l.body.get(*instr as usize).map_or(false, |b| b.block_alt.is_some() && b.ins.is_block_style());
+                if on_opener {
+                    let alt = model.accepted_probes.iter().find(|p| p.0 == id && p.4 == *instr && p.2 == Mode::BlockAlt && p.1 != 0);
+                    let span_of = |m: i32| -> Option<Vec<(usize, usize)>> {
+                        let pb = model.probe_bodies.get(&m)?;
+                        let off = pb.iter().position(|i| *i == Ins::I32Const(m))?;
+                        Some(of.body.iter().enumerate().filter(|(_, i)| **i == Ins::I32Const(m)).map(|(k, _)| (k.saturating_sub(off), k.saturating_sub(off) + pb.len())).collect())
+                    };
+                    if let (Some(alt), Some(mine)) = (alt, span_of(*magic)) {
+                        if let Some(theirs) = span_of(alt.1) {
+                            for (s, e) in mine {
+                                if !theirs.iter().any(|(a, b)| e == *a || s == *b || (s < *b && *a < e)) {
+                                    mm.push(Mismatch::new(
+                                        "replaced_opener_probe",
+                                        mode.name(),
+                                        format!(
+                                            "func {:#x} instr {instr}: probe magic {:#x} on the opener of a replaced construct is emitted at {s}..{e}, away from the replacement (magic {:#x} at {:?})",
+                                            l.magic, magic, alt.1, theirs
+                                        ),
+                                    ));
+                                    break;
+                                }
+                            }
+                        }
+                    }
+                }
                 continue;
             }
             let occ: Vec<usize> = of.body.iter().enumerate().filter(|(_, i)| **i == Ins::I32Const(*magic)).map(|(k, _)| k).collect();
